@@ -3,9 +3,14 @@
                                                     RemoveTestOutputs :526, moveOutputFile :542, verifyHash :572)
      RuntimeHash       src/build/incrementality.go:441  (+ the runtime part of ruleHash :245, CollapseHash)
      IterRuntimeFiles  src/core/utils.go:246
-   for one test target with NumTestRuns = 1, no --rerun, no test arguments, no coverage, run locally.
-   What the loop of RuntimeHash writes per runtime file is NOT typed here: it is Gen/C11RuntimeHash.v,
-   which gotrans reads off the source.  No proofs here. *)
+     getCommand        src/core/build_target.go:1626  (test_cmd given per build config), TestCommand
+                       src/core/command_replacements.go:98 (test arguments are appended to the command)
+   for one test target with NumTestRuns = 1, no --rerun, no coverage, run locally; with and without test
+   arguments (`plz test L -- a`) and a build config (`-c dbg`).
+   NOT typed here but read off the source by gotrans (Gen/C11RuntimeHash.v): what the loop of RuntimeHash
+   writes per runtime file (loop_writes), what the test part of ruleHash's runtime section writes
+   (rule_test_writes), the order of the guards and effects of cacheOutputFiles (store_steps), the lookup
+   order of getCommand (get_command_order) and the default / fallback build config.  No proofs here. *)
 From PlzV Require Import Base.Harness Gen.C11RuntimeHash.
 
 (* ---- runtime files ---- *)
@@ -45,7 +50,9 @@ Inductive tcmd :=
 | TBinOk (w : str)                        (* grep -qs w $TEST *)
 | TExists (dest : str) (sub : option str) (* test -e dest[/sub] *)
 | TTrue
-| TFail.
+| TFail
+| TArgIs (w : str)                        (* sh -c 'test "$1" = w' sh     : the first test argument is w *)
+| TArgIsNot (w : str).                    (* sh -c 'test "$1" != w' sh    : the first test argument is not w *)
 
 Fixpoint prefix_b (w c : str) : bool :=
   match w, c with
@@ -75,40 +82,119 @@ Definition is_data (f : rfile) : bool := match rf_role f with RData => true | RO
 (* [dir] is the prepared test directory: the de-duplicated runtime files (PrepareRuntimeDir uses the same
    iterator as RuntimeHash, so what lies at a destination is the first source pushed for it).  $DATA names
    the data destinations; generated data destinations lie under the package path and never collide with
-   the outputs, which lie at the root of the test directory. *)
-Definition run_cmd (c : tcmd) (dir : list rfile) : bool :=
+   the outputs, which lie at the root of the test directory.
+   [a] are the test arguments: core.TestCommand appends them to the command text.  grep -q exits 0 as soon as
+   it finds a match and fails otherwise, whatever further (missing) file operands follow; `test -e P a` is a
+   usage error (exit 2); true / false ignore their operands; "$1" of the sh -c forms is the first argument
+   (the empty string when there is none). *)
+Definition first_arg (a : list str) : str := match a with x :: _ => x | [] => [] end.
+
+Definition run_cmd (c : tcmd) (dir : list rfile) (a : list str) : bool :=
   match c with
   | TPassIf w => existsb (fun f => is_data f && node_has w (rf_node f)) dir
   | TBinOk w => match filter (fun f => negb (is_data f)) dir with
                 | f :: _ => node_has w (rf_node f)
                 | [] => false
                 end
-  | TExists d sub => match lookup d dir, sub with
-                     | None, _ => false
-                     | Some _, None => true
-                     | Some (File _), Some _ => false
-                     | Some (Dir es), Some n => existsb (fun e => str_eqb n (fst e)) es
+  | TExists d sub => match a with
+                     | _ :: _ => false
+                     | [] =>
+                       match lookup d dir, sub with
+                       | None, _ => false
+                       | Some _, None => true
+                       | Some (File _), Some _ => false
+                       | Some (Dir es), Some n => existsb (fun e => str_eqb n (fst e)) es
+                       end
                      end
   | TTrue => true
   | TFail => false
+  | TArgIs w => str_eqb (first_arg a) w
+  | TArgIsNot w => negb (str_eqb (first_arg a) w)
   end.
 
 (* [files] is the list before de-duplication *)
-Definition test_act (c : tcmd) (files : list rfile) : bool := run_cmd c (runtime_files files).
+Definition test_act (c : tcmd) (files : list rfile) (a : list str) : bool := run_cmd c (runtime_files files) a.
 
 (* ---- the runtime key ---- *)
 
-(* One test target as one invocation sees it. *)
+(* One test target as one invocation sees it: under the build config of that invocation (see [effective]). *)
 Record tdef := {
   t_rule : list str;     (* the strings ruleHash(runtime=true) writes, in its order (label, deps, srcs, outs,
-                            command, data entries, test command) - only the parts that vary *)
-  t_cmd : tcmd;          (* the test command, structured; its text is the last string of t_rule *)
+                            command, data entries, test part) - only the parts that vary *)
+  t_cmd : tcmd;          (* the EFFECTIVE test command, structured *)
   t_files : list rfile;  (* IterRuntimeFiles, before de-duplication: outputs first, then data in order *)
   t_bin : str            (* content of the test binary (the single output) *)
 }.
 
-(* the outcome of actually running the test of t: what a fresh `plz test` reports *)
-Definition outcome (t : tdef) : bool := test_act (t_cmd t) (t_files t).
+(* the outcome of actually running the test of t with the test arguments a: what a fresh `plz test L -- a`
+   reports; [outcome] is the argument-less run *)
+Definition outcome_args (t : tdef) (a : list str) : bool := test_act (t_cmd t) (t_files t) a.
+Definition outcome (t : tdef) : bool := outcome_args t [].
+
+(* ---- the target as the BUILD file defines it: test_cmd is one string or a dict keyed by build config ---- *)
+
+Inductive tcmds :=
+| Single (text : str) (c : tcmd)
+| PerConfig (l : list (str * (str * tcmd))).      (* config name -> (command text, its meaning); a Go map *)
+
+Record tsrc := {
+  ts_rule : list str;    (* what ruleHash(runtime=true) writes before the test part *)
+  ts_cmds : tcmds;
+  ts_files : list rfile;
+  ts_bin : str
+}.
+
+Fixpoint assoc {A} (k : str) (l : list (str * A)) : option A :=
+  match l with
+  | [] => None
+  | (k', v) :: r => if str_eqb k k' then Some v else assoc k r
+  end.
+
+(* getCommand's last resort: `for config, command := range commands { if config > highestConfig {...} }`
+   starting from ("", ""); the empty command text means nothing here (the harness never builds an empty dict). *)
+Definition highest (l : list (str * (str * tcmd))) : str * (str * tcmd) :=
+  fold_left (fun acc e => if str_ltb (fst acc) (fst e) then e else acc) l ([], ([], TFail)).
+
+Definition choose (cfg : str) (l : list (str * (str * tcmd))) (ch : cmd_choice) : option (str * tcmd) :=
+  match ch with
+  | ChActive => assoc cfg l
+  | ChFallback => assoc fallback_config l
+  | ChHighest => Some (snd (highest l))
+  end.
+
+Fixpoint first_choice (cfg : str) (l : list (str * (str * tcmd))) (order : list cmd_choice) : str * tcmd :=
+  match order with
+  | [] => ([], TFail)
+  | ch :: r => match choose cfg l ch with Some e => e | None => first_choice cfg l r end
+  end.
+
+(* BuildTarget.getCommand *)
+Definition get_command (cfg : str) (c : tcmds) : str * tcmd :=
+  match c with
+  | Single t m => (t, m)
+  | PerConfig l => first_choice cfg l get_command_order
+  end.
+
+(* target.Test.Command: only the plain-string form fills it *)
+Definition single_text (c : tcmds) : str := match c with Single t _ => t | PerConfig _ => [] end.
+
+(* the test part of ruleHash's runtime section; test outputs (none), the sandbox flag and the arguments
+   placeholder (empty) are the same for all generated targets *)
+Definition test_part (cfg : str) (c : tcmds) : list str :=
+  map (fun w => match w with
+                | RWTestCmdEffective => fst (get_command cfg c)
+                | RWTestCmdSingle => single_text c
+                | RWTestOutputs | RWSandbox | RWArgsPlaceholder => []
+                end) rule_test_writes.
+
+(* no -c flag: config.Build.Config keeps its default *)
+Definition resolve_config (c : str) : str := match c with [] => default_config | _ => c end.
+
+Definition effective (cfg : str) (ts : tsrc) : tdef :=
+  {| t_rule := ts_rule ts ++ test_part cfg (ts_cmds ts);
+     t_cmd := snd (get_command cfg (ts_cmds ts));
+     t_files := ts_files ts;
+     t_bin := ts_bin ts |}.
 
 (* What RuntimeHash writes for one runtime file: per Gen.C11RuntimeHash.loop_writes. *)
 Definition file_stream (f : rfile) : list str :=
@@ -152,11 +238,27 @@ Definition mem_key (k : key) (l : list key) : bool := existsb (key_eqb k) l.
 Definition rm_plz_out (st : tstate) : tstate :=
   {| st_bin := None; st_local := None; st_cache := st_cache st |}.
 
-(* One `plz test` of the target.  [cache_on]: a directory cache is configured.
+(* cacheOutputFiles, called after a run in which every test case succeeded (results.Failures() = 0), as an
+   interpreter of Gen.store_steps: a guard stops, moveOutputFile puts the results file with the key in its
+   xattr into plz-out/bin, Cache.Store adds the key to the directory cache.  RemoveTestOutputs has removed
+   the old results file before the run, so [loc] starts as None. *)
+Fixpoint exec_store (cache_on has_args : bool) (k : key) (steps : list store_step)
+                    (loc : option key) (cache : list key) : option key * list key :=
+  match steps with
+  | [] => (loc, cache)
+  | SGuardArgs :: r => if has_args then (loc, cache) else exec_store cache_on has_args k r loc cache
+  | SGuardFailures :: r => exec_store cache_on has_args k r loc cache
+  | SMoveResults :: r => exec_store cache_on has_args k r (Some k) cache
+  | SCacheStore :: r => exec_store cache_on has_args k r loc (if cache_on then k :: cache else cache)
+  end.
+
+Definition has_args (a : list str) : bool := match a with [] => false | _ :: _ => true end.
+
+(* One `plz test` of the target.  [cache_on]: a directory cache is configured.  [a]: the test arguments.
    Build part: target.State() is Reused/Unchanged exactly when the binary in plz-out/bin is the one the
    current definition produces (not rebuilt, or rebuilt / fetched with equal output hash); otherwise it is
-   Built/Cached. *)
-Definition test_step (cache_on : bool) (st : tstate) (t : tdef) : tstate * report :=
+   Built/Cached.  needToRun does not look at the test arguments, and the runtime key does not contain them. *)
+Definition test_step (cache_on : bool) (st : tstate) (t : tdef) (a : list str) : tstate * report :=
   let k := runtime_key t in
   let settled := option_eqb str_eqb (st_bin st) (Some (t_bin t)) in
   (* needToRun (:144) *)
@@ -169,18 +271,24 @@ Definition test_step (cache_on : bool) (st : tstate) (t : tdef) : tstate * repor
     (* cachedTestResults: what was stored passed (only passes are stored), reported as cached *)
     ({| st_bin := Some (t_bin t); st_local := Some k; st_cache := st_cache st |}, CachedPass)
   else
-    (* RemoveTestOutputs, run, and on success cacheOutputFiles: results file + xattr, Cache.Store *)
-    if outcome t then
-      ({| st_bin := Some (t_bin t); st_local := Some k;
-          st_cache := if cache_on then k :: st_cache st else st_cache st |}, RanPass)
+    (* RemoveTestOutputs, run (with the arguments), and on success cacheOutputFiles *)
+    if outcome_args t a then
+      let lc := exec_store cache_on (has_args a) k store_steps None (st_cache st) in
+      ({| st_bin := Some (t_bin t); st_local := fst lc; st_cache := snd lc |}, RanPass)
     else
       ({| st_bin := Some (t_bin t); st_local := None; st_cache := st_cache st |}, RanFail).
 
-(* One step of a history: optionally delete plz-out, then `plz test` on the current tree. *)
-Record step := { s_rm : bool; s_def : tdef }.
+(* One step of a history: optionally delete plz-out, then `plz test [-c config] L [-- args]` on the current tree. *)
+Record step := { s_rm : bool; s_config : str; s_args : list str; s_src : tsrc }.
+
+(* the target as this invocation sees it *)
+Definition s_def (x : step) : tdef := effective (resolve_config (s_config x)) (s_src x).
+
+(* what a fresh run of this invocation reports *)
+Definition step_outcome (x : step) : bool := outcome_args (s_def x) (s_args x).
 
 Definition do_step (cache_on : bool) (st : tstate) (x : step) : tstate * report :=
-  test_step cache_on (if s_rm x then rm_plz_out st else st) (s_def x).
+  test_step cache_on (if s_rm x then rm_plz_out st else st) (s_def x) (s_args x).
 
 Fixpoint run (cache_on : bool) (st : tstate) (h : list step) : list (tstate * report) :=
   match h with
@@ -214,6 +322,7 @@ Definition tcmd_eqb (a b : tcmd) : bool :=
   | TPassIf w, TPassIf w' | TBinOk w, TBinOk w' => str_eqb w w'
   | TExists d u, TExists d' u' => str_eqb d d' && option_eqb str_eqb u u'
   | TTrue, TTrue | TFail, TFail => true
+  | TArgIs w, TArgIs w' | TArgIsNot w, TArgIsNot w' => str_eqb w w'
   | _, _ => false
   end.
 
@@ -224,7 +333,8 @@ Definition same_inputs_b (a b : tdef) : bool :=
 Inductive defect :=
 | RuntimeFileNamesNotHashed     (* equal key, but a runtime file lies at another destination *)
 | DirEntryNamesNotHashed        (* equal key, same destinations, but a directory's entries differ (C09) *)
-| OtherKeyCollision.            (* equal key although command or contents differ (unframed rule stream, ...) *)
+| OtherKeyCollision             (* equal key although command or contents differ (unframed rule stream, ...) *)
+| ArgsNotInKey.                 (* equal key, one run without and one with test arguments that change the outcome *)
 
 Definition pair_defect (a b : tdef) : option defect :=
   if key_eqb (runtime_key a) (runtime_key b) && negb (same_inputs_b a b) then
@@ -243,15 +353,25 @@ Fixpoint first_some {A B} (f : A -> option B) (l : list A) : option B :=
   | x :: r => match f x with Some d => Some d | None => first_some f r end
   end.
 
-(* the first pair of tree states of the history on which the key is blind to a change of the inputs *)
+(* x ran without arguments, y has the same key and arguments under which its outcome differs from the
+   argument-less outcome: needToRun would hand x's result to y *)
+Definition step_pair_defect (x y : step) : option defect :=
+  match pair_defect (s_def x) (s_def y) with
+  | Some d => Some d
+  | None => if key_eqb (runtime_key (s_def x)) (runtime_key (s_def y)) && negb (has_args (s_args x))
+               && negb (Bool.eqb (step_outcome y) (outcome (s_def y)))
+            then Some ArgsNotInKey else None
+  end.
+
+(* the first pair of steps of the history on which the key is blind to a change of the inputs or arguments *)
 Definition defect_class (h : list step) : option defect :=
-  first_some (fun x => first_some (fun y => pair_defect (s_def x) (s_def y)) h) h.
+  first_some (fun x => first_some (fun y => step_pair_defect x y) h) h.
 
 (* ---- correspondence cases ---- *)
 
 Record obs := {
   o_report : report;   (* what `plz test` reported for the target, and whether the command really ran *)
-  o_fresh : bool;      (* outcome of `plz test` on a clean copy of the same tree *)
+  o_fresh : bool;      (* outcome of the same `plz test` invocation on a clean copy of the same tree *)
   o_nkeys : nat        (* distinct test-result keys of the target in the directory cache afterwards *)
 }.
 
@@ -266,7 +386,7 @@ Definition check (c : case) : bool :=
       && forallb (fun p =>
                     let '((st, rep), (x, o)) := p in
                     report_eqb rep (o_report o)
-                    && Bool.eqb (outcome (s_def x)) (o_fresh o)
+                    && Bool.eqb (step_outcome x) (o_fresh o)
                     && (negb cache_on || Nat.eqb (nkeys (st_cache st)) (o_nkeys o)))
                  (combine r h)
   end.
